@@ -89,6 +89,16 @@ def signature(src: str, r, subs=()):
     The predicate must hold for the source AND the observed discrepancy must be the one described."""
     from . import cparse as CP
 
+    if r.verdict() == "defuse":
+        from . import ctype as _ct
+
+        try:
+            rt = {n for n in _ct.signatures() if n in _bundled_routines()} | {s_[0] for s_ in subs}
+            if CP.valueless_hybrid_statements(CP.parse(src), rt):
+                return "valueless_statement_hybrid_hoisted"
+        except CP.ParseError:
+            pass
+        return None
     if r.verdict() != "diff" or not r.diff_keys:
         return None
     if subs:
@@ -105,6 +115,9 @@ def signature(src: str, r, subs=()):
     from . import ctype
 
     routines = {n for n, (ret, ps) in ctype.signatures().items() if n in _bundled_routines()} | {s_[0] for s_ in subs}
+    if CP.valueless_hybrid_statements(ast, routines):
+        # the operation inside a value-dropped expression statement is sequenced at the front of the instruction (listed finding)
+        return "valueless_statement_hybrid_hoisted"
     if CP.loop_condition_hybrids(ast, routines):
         # the operation is sequenced once in front of the loop instead of with every test of the condition (listed finding)
         return "loop_condition_hybrid_once"
@@ -199,7 +212,7 @@ def output_signature(src: str, probs):
         kinds = CP.dead_nested_kinds(ast)
     except CP.ParseError:
         return None
-    if not names:
+    if not names and not sum(kinds.values()):
         return None
     for pr in probs:
         m = re.search(r"(identifier|pure|effect|parameter) (\w+) ", pr)
